@@ -16,7 +16,7 @@ vars == <<l, failed, drift>>
 
 \* the implementation-shaped model in color-only mode, run on the same history (drift report, never a verdict):
 \* does it write one row per input line, in order - and does the binary?
-IS == INSTANCE Impl_Stream WITH Modes <- {}, Buf <- 32, ColorOnly <- TRUE, Fixes <- {"D1", "D14", "D2", "D18", "D19", "D20", "D21", "D23", "D24"}
+IS == INSTANCE Impl_Stream WITH Modes <- {}, Buf <- 32, ColorOnly <- TRUE, Fixes <- {"D1", "D14", "D2", "D18", "D19", "D20", "D21", "D23", "D24", "D25"}
 RECURSIVE ImplRun(_, _, _)
 ImplRun(h, st, k) == IF k > Len(h) THEN st ELSE ImplRun(h, IS!Step(st, k, h[k]), k + 1)
 ModelLineForLine(e) == LET w == IS!Finish(ImplRun(e.lines, IS!InitS, 1)).w IN [i \in DOMAIN w |-> w[i].k] = [k \in 1..Len(e.lines) |-> k]
